@@ -726,7 +726,54 @@ func waits(c *hl.Ctx) {
 	}
 }
 
+// retention: the bytes returned by a packet's MarshalBinary stay what they were when other packets are marshalled.
+func retention(c *hl.Ctx) {
+	mk := []func() rtmp.Packet{
+		func() rtmp.Packet {
+			p := rtmp.NewConnectAppPacket()
+			p.CommandObject.Set("app", amf0.NewString("live"))
+			p.Args = amf0.NewObject()
+			p.Args.Set("k", amf0.NewNumber(3))
+			return p
+		},
+		func() rtmp.Packet { p := rtmp.NewCreateStreamPacket(); p.TransactionID = 9; return p },
+		func() rtmp.Packet { p := rtmp.NewPublishPacket(); p.StreamName = "stream-name"; return p },
+		func() rtmp.Packet {
+			p := rtmp.NewCallPacket()
+			p.CommandName, p.CommandObject = "onStatus", amf0.NewNull()
+			o := amf0.NewEcmaArray()
+			o.Set("code", amf0.NewString("NetStream.Play.Start"))
+			p.Args = o
+			return p
+		},
+		func() rtmp.Packet { p := rtmp.NewUserControl(); p.EventType, p.EventData, p.ExtraData = 3, 1, 2; return p },
+		func() rtmp.Packet { p := rtmp.NewSetPeerBandwidth(); p.Bandwidth = 7; return p },
+		func() rtmp.Packet { return rtmp.NewCreateStreamResPacket(4) },
+	}
+	for ai, a := range mk {
+		for bi, b := range mk {
+			if !c.Mine(ai*len(mk) + bi) {
+				continue
+			}
+			c.Eval()
+			ba, err := a().MarshalBinary()
+			if err != nil {
+				continue
+			}
+			keep := append([]byte{}, ba...)
+			b().MarshalBinary()
+			b().MarshalBinary()
+			if !bytes.Equal(ba, keep) {
+				c.Violation("codec/retention/marshalled-bytes-overwritten", fmt.Sprintf("the bytes returned by MarshalBinary of %T changed after a %T was marshalled: was %s, is %s", a(), b(), hl.Hex(keep), hl.Hex(ba)), codecCase{"codec/retention", fmt.Sprint(ai, bi)})
+				return
+			}
+			c.Nontrivial(fmt.Sprint("ret", ai, bi))
+		}
+	}
+}
+
 func run(c *hl.Ctx) {
+	retention(c)
 	c.Rule("(a) codec sweep: every packet constructor x field alphabets (all 65536 user-control event types x 7 data x extra; uint32 boundary values, every byte-lane value in thorough; all 256 limit types; AMF0 object/value trees <= 3 nodes (thorough 4) as command object/arguments; transaction ids {1,2,3,1e9,2.5,0}; strings of length {0,1,255,256,65535}) checked for len==Size, reference bytes, unmarshal/re-marshal identity and field equality; (b) every request/response history of length <= D over 14 operations (requests with tids {1,2,3}, responses for tids {1,2,3} incl. unsolicited and repeated ones, other commands, control packets, server-side onStatus) on two real endpoints, against a reference outstanding-request map; (c) typed waits behind every filler sequence of length <= 3 over 5 filler packets. state = (reference map, dumped transaction table); transition = one operation.")
 	c.Assume("strict arrays are outside the tree alphabet here (AMF0 layout is C05/C06's subject)", "two outstanding requests with the same transaction id, transaction ids <= 0 and _error responses are not generated", "fillers are packets the library itself constructs (no Acknowledgement type exists in the library)")
 	codecs(c)
